@@ -86,7 +86,10 @@ static int run_array(ygm::comm& world, const args_t& argv) {
     if (c == 'T') { cur = (int)U(f[1]); continue; }
     if (c == 'C') { a[1].reset(new arr_t(*a[0])); world.barrier(); continue; }
     // n scratch arrays of the same type constructed and destroyed (every construction takes a new ygm_ptr slot)
-    if (c == 'K') { for (u64 k = 0; k < U(f[1]); ++k) { arr_t scratch(world, 1, (u64)0); } world.barrier(); continue; }
+    if (c == 'K') {   // `K n`: fresh constructions; `K n c`: copies of array #0 (cheaper: no resize barriers)
+      if (f.size() > 2) { for (u64 k = 0; k < U(f[1]); ++k) { arr_t scratch(*a[0]); } }
+      else { for (u64 k = 0; k < U(f[1]); ++k) { arr_t scratch(world, 1, (u64)0); } }
+      world.barrier(); continue; }
     // a second, independent array of the same type (other length / default) alive next to array #0
     if (c == 'N') { a[1].reset(new arr_t(world, U(f[1]), U(f[2]))); world.barrier(); continue; }
     if (c == 'F') {
@@ -222,6 +225,7 @@ static int run_tbag(ygm::comm& world, const args_t& argv) {
   typedef ygm::container::tagged_bag<u64> tb_t;
   tb_t tb0(world), tb1(world);
   tb_t* tbs[2] = {&tb0, &tb1};
+  std::vector<size_t> mine[2];     // per slot: the fresh tags of this rank's J steps
   int cur = 0;
   int me = world.rank();
   for (auto& f : parse(argv[1].c_str())) {
@@ -236,7 +240,6 @@ static int run_tbag(ygm::comm& world, const args_t& argv) {
       case 'X': if ((int)U(f[1]) == me) tb.async_visit_if_exists(U(f[2]), [](const size_t& tag, u64& v, const u64& k) { v += k; }, U(f[3])); break;
       case 'E': if ((int)U(f[1]) == me) tb.async_erase(U(f[2])); break;
       case 'J': {   // every rank inserts x+rank and AT ONCE (no barrier, no size()) gathers its fresh tag and the one before
-        static std::vector<size_t> mine[2];
         auto tag = tb.async_insert(U(f[1]) + me);
         hc::out("tag " + std::to_string(tag));
         std::vector<size_t> q{tag}; if (!mine[cur].empty()) q.push_back(mine[cur].back());
@@ -282,7 +285,8 @@ static int run_sbag(ygm::comm& world, const args_t& argv) {
     else if (c == 'a') {
       auto v = b.gather_to_vector();
       std::vector<std::string> d;
-      for (auto& s : v) d.push_back(std::to_string(s.size()) + ":" + std::to_string(std::hash<std::string>{}(s)));
+      for (auto& s : v) { uint64_t h = 1469598103934665603ULL; for (unsigned char ch : s) { h ^= ch; h *= 1099511628211ULL; }   // FNV-1a
+        d.push_back(std::to_string(s.size()) + ":" + std::to_string(h)); }
       std::sort(d.begin(), d.end());
       hc::out(join("sgather", d.begin(), d.end())); world.barrier();
     }
